@@ -3,6 +3,7 @@
 package spec
 
 import (
+	"strconv"
 	"encoding/json"
 	"os"
 
@@ -25,7 +26,42 @@ const (
 	LogicalNameAnno = "verif/logical-name" // stable name of a pod across re-creations (closed system)
 	CloneAnno       = "verif/clone-class"  // PodGroups created as clones by the generator (C16)
 	ControlAnno     = "verif/control"      // C10 control workload
+	// ArriveAnno on a PodGroup: the workload (pod group and its pods) is submitted only before the cycle with this
+	// number (>= 2); until then it is not in the API state
+	ArriveAnno = "verif/arrives-at-cycle"
 )
+
+// SplitArrivals separates the objects present before the first cycle from the workloads that arrive later
+// (ArriveAnno), keyed by the cycle before which they are submitted.
+func (o *Objects) SplitArrivals() (initial []runtime.Object, arrivals map[int][]runtime.Object) {
+	at := map[string]int{}
+	for _, pg := range o.PodGroups {
+		if k, err := strconv.Atoi(pg.Annotations[ArriveAnno]); err == nil && k >= 2 {
+			at[pg.Namespace+"/"+pg.Name] = k
+		}
+	}
+	if len(at) == 0 {
+		return o.All(), nil
+	}
+	arrivals = map[int][]runtime.Object{}
+	for _, x := range o.All() {
+		k := 0
+		switch v := x.(type) {
+		case *enginev2alpha2.PodGroup:
+			k = at[v.Namespace+"/"+v.Name]
+		case *v1.Pod:
+			if g := v.Annotations["pod-group-name"]; g != "" {
+				k = at[v.Namespace+"/"+g]
+			}
+		}
+		if k == 0 {
+			initial = append(initial, x)
+		} else {
+			arrivals[k] = append(arrivals[k], x)
+		}
+	}
+	return initial, arrivals
+}
 
 type Objects struct {
 	Nodes           []*v1.Node                        `json:"nodes,omitempty"`
